@@ -298,7 +298,7 @@ Proof.
 Qed.
 
 Ltac sys_same_close :=
-  unfold set_pc, end_release_early, end_finish;
+  unfold set_pc, end_release_early, end_finish, set_stage;
   repeat first
   [ apply sys_same_refl
   | match goal with
@@ -467,6 +467,7 @@ Proof.
       repeat match goal with
       | |- Rc _ (if ?b then _ else _) _ => destruct b
       | |- Rc _ (set_thread ?t ?v ?X) _ => eapply Rc_sys_same; [|apply (sys_same_eq X); reflexivity]
+      | |- Rc _ (set_stage ?t ?v ?k ?X) _ => eapply Rc_sys_same; [|apply (sys_same_eq X); reflexivity]
       | |- Rc _ (upd_inst ?j ?f ?X) _ => eapply Rc_sys_same; [|apply (sys_same_upd_inst j f X); intros; cbn; repeat split; try reflexivity; destruct_matches; reflexivity]
       end;
       try (apply HRo; exact HR0).
